@@ -1340,13 +1340,35 @@ class _Frame:
             else:
                 kwargs[k.arg] = self.ev(k.value)
         if self.I.call_hook is not None:
+            args, kwargs = self._by_position(f, args, kwargs, not f.is_static())
             r = self.I.call_hook(f, args, kwargs)
             if r is not NotImplemented:
                 return r
         return self.I.call_function(f, args, kwargs, self_obj=selfobj)
 
+    @staticmethod
+    def _by_position(fi, args, kwargs, bound):
+        """keyword arguments that continue the positional ones are moved into position, so that a hook (and any stand-in)
+        sees `f(a, b, c)` and `f(a, b, c=c)` as the same call"""
+        if fi is None or not kwargs:
+            return args, kwargs
+        a = fi.node.args
+        names = [x.arg for x in a.posonlyargs + a.args]
+        if bound and names:
+            names = names[1:]
+        args, kwargs = list(args), dict(kwargs)
+        k = len(args)
+        while k < len(names) and names[k] in kwargs:
+            args.append(kwargs.pop(names[k]))
+            k += 1
+        return args, kwargs
+
     def call(self, fn, args, kwargs, n):
         if self.I.call_hook is not None:
+            if isinstance(fn, _Bound):
+                args, kwargs = self._by_position(fn.finfo, args, kwargs, fn.selfobj is not None and not fn.finfo.is_static())
+            elif isinstance(fn, FuncInfo):
+                args, kwargs = self._by_position(fn, args, kwargs, False)
             r = self.I.call_hook(fn, args, kwargs)
             if r is not NotImplemented:
                 return r
